@@ -294,3 +294,90 @@ func H_C09_pointer_rule() {
 	}
 	vCover("end")
 }
+
+// The message-building API: a message assembled with NewMessage / AddQuestion / AddAnswer / AddAnswerClassINType* is valid
+// by the library's own Validate, carries exactly what was added (counts kept in step with the sections) and round-trips.
+func H_C09_builder() {
+	labels, llen := vParam("labels"), vParam("llen")
+	m := NewMessage()
+	vCheck(len(m.Questions) == 0 && len(m.Answers) == 0 && len(m.Authority) == 0 && len(m.Additional) == 0, "builder/new-message-is-empty")
+	m.ID = vU16("id")
+	m.Flags = vU16("flags")
+	m.SetQuery()
+	vCheck(m.IsQuery() && !m.IsResponse() && m.Flags == vU16("flags")&^0x8000, "builder/SetQuery-clears-only-QR")
+	qn := refJoin(symNameLabels("q", labels, llen))
+	err := m.AddQuestion(qn, vU16("qt"), vU16("qc"))
+	vCheck(err == nil, "builder/valid-question-accepted")
+	vCheck(m.QDCount == 1 && len(m.Questions) == 1, "builder/question-count-in-step")
+	r := CreateResponseFromMessage(m)
+	vCheck(r.ID == m.ID && r.IsResponse() && r.Flags == m.Flags|0x8000, "builder/response-echoes-id-and-sets-QR")
+	vCheck(len(r.Questions) == 0 && len(r.Answers) == 0 && r.QDCount == 0 && r.ANCount == 0, "builder/response-starts-empty")
+	an := refJoin(symNameLabels("a", labels, llen))
+	rr := ResourceRecord{Name: an, Type: vU16("at"), Class: vU16("ac"), TTL: vU32("attl"), RData: vBytes("ard", 3)}
+	rr.RDLength = 3
+	vCheck(r.AddAnswer(rr) == nil, "builder/valid-answer-accepted")
+	// the typed helpers add the record and, when the name was not asked yet, the matching question
+	vCheck(r.AddAnswerClassINTypeA(an, "192.0.2.7") == nil, "builder/A-answer-accepted")
+	vCheck(r.AddAnswerClassINTypeAAAA(qn, "2001:db8::1") == nil, "builder/AAAA-answer-accepted")
+	vCheck(len(r.Answers) == 3 && r.ANCount == 3, "builder/answer-count-in-step")
+	vCheck(int(r.QDCount) == len(r.Questions), "builder/question-count-in-step-after-typed-helpers")
+	vCheck(r.Validate() == nil, "builder/built-message-validates")
+	if len(r.Answers) == 3 {
+		a, b := r.Answers[1], r.Answers[2]
+		vCheck(a.Type == TypeA && a.Class == ClassIN && len(a.RData) == 4 && a.RData[0] == 192 && a.RData[1] == 0 && a.RData[2] == 2 && a.RData[3] == 7, "builder/A-record-content")
+		vCheck(b.Type == TypeAAAA && b.Class == ClassIN && len(b.RData) == 16 && b.RData[0] == 0x20 && b.RData[1] == 0x01 && b.RData[2] == 0x0d && b.RData[3] == 0xb8 && b.RData[15] == 1, "builder/AAAA-record-content")
+		vCheck(int(a.RDLength) == len(a.RData) && int(b.RDLength) == len(b.RData), "builder/rdlength-matches")
+	}
+	raw, err := r.Encode()
+	vCheck(err == nil, "builder/encode-ok")
+	if err != nil {
+		return
+	}
+	d, err := DecodeMessage(raw)
+	vCheck(err == nil, "builder/decode-ok")
+	if err != nil {
+		return
+	}
+	vCheck(d.ID == r.ID && d.Flags == r.Flags && d.Validate() == nil, "builder/roundtrip-header")
+	vCheck(len(d.Questions) == len(r.Questions) && len(d.Answers) == 3, "builder/roundtrip-section-sizes")
+	for i := 0; i < len(d.Answers) && i < 3; i++ {
+		rrSame(&d.Answers[i], &r.Answers[i], "builder/roundtrip-answer")
+	}
+	vCover("end")
+}
+
+// Validate: exactly the messages whose counts match their sections and whose question / answer names are valid pass.
+func H_C09_validate() {
+	m := &Message{}
+	m.QDCount, m.ANCount, m.NSCount, m.ARCount = vU16("qd"), vU16("an"), vU16("ns"), vU16("ar")
+	nq, na, ns, nr := vParam("q"), vParam("a"), vParam("n"), vParam("r")
+	long := ""
+	for i := 0; i < 64; i++ {
+		long += "x"
+	}
+	bad := vParam("bad") // 0 none, 1 a question label of 64 bytes, 2 an answer label of 64 bytes
+	for i := 0; i < nq; i++ {
+		n := "host"
+		if bad == 1 && i == nq-1 {
+			n = "a." + long
+		}
+		m.Questions = append(m.Questions, Question{Name: n, Type: 1, Class: 1})
+	}
+	for i := 0; i < na; i++ {
+		n := "host"
+		if bad == 2 && i == 0 {
+			n = long + ".b"
+		}
+		m.Answers = append(m.Answers, ResourceRecord{Name: n})
+	}
+	for i := 0; i < ns; i++ {
+		m.Authority = append(m.Authority, ResourceRecord{Name: "host"})
+	}
+	for i := 0; i < nr; i++ {
+		m.Additional = append(m.Additional, ResourceRecord{Name: "host"})
+	}
+	countsOK := vAnd(vAnd(int(m.QDCount) == nq, int(m.ANCount) == na), vAnd(int(m.NSCount) == ns, int(m.ARCount) == nr))
+	namesOK := !((bad == 1 && nq > 0) || (bad == 2 && na > 0))
+	vCheck((m.Validate() == nil) == vAnd(countsOK, namesOK), "validate/accepts-exactly-consistent-messages")
+	vCover("end")
+}
